@@ -95,6 +95,11 @@ func (c *CRLRevocationChecker) Cleanup() error {
 	if c.crlUpdateTicker != nil {
 		c.crlUpdateTicker.Stop()
 	}
+	if c.crlUpdateStop != nil {
+		//stopping the ticker does not end the goroutine which waits for ticks
+		close(c.crlUpdateStop)
+		c.crlUpdateStop = nil
+	}
 	return nil
 }
 func (c *CRLRevocationChecker) addCrlUrlsFromConfig(chains *core.CertificateChains) error {
